@@ -29,7 +29,21 @@ class Atom:
         return inner
 
 
+def split_head(s):
+    """ "R(x,y) S(y,z) -> x"  ->  ("R(x,y) S(y,z)", ["x"]) ; no arrow: every variable is in the head"""
+    if "->" in s:
+        b, h = s.split("->")
+        return b.strip(), [v.strip() for v in h.split(",") if v.strip()]
+    return s.strip(), None
+
+
+def head_vars(spec):
+    body, hv = split_head(spec)
+    return hv if hv is not None else body_vars(parse_body(body))
+
+
 def parse_body(s):
+    s = split_head(s)[0]
     atoms = []
     for m in re.finditer(r"([A-Za-z][A-Za-z0-9_]*)\(([^)]*)\)(?:=([A-Za-z0-9_]+))?", s):
         name, args, ret = m.group(1), m.group(2), m.group(3)
@@ -109,6 +123,23 @@ SHAPES = [
     ("diamond", "R(x,y) S(x,z) T(y,w) U(z,w)", ""),
     ("tern_chain", "R(x,y,z) S(z,w,v) T(v,x)", ""),
     ("fn_dup_chain", "f(x)=y f(x)=z R(y,z) S(z,w)", ""),
+    # heads that project variables away: guard atoms, existence tests, variables used once and never in the head
+    ("g_rep", "R(a,a) S(y) -> y", "q"),
+    ("g_exists", "R(a,b) S(y) -> y", "q"),
+    ("g_const", "R(a,1) S(y) -> y", "q"),
+    ("g_fn", "f(a)=b S(y) -> y", "q"),
+    ("p_chain2", "R(x,y) S(y,z) -> x", "q"),
+    ("p_chain2b", "R(x,y) S(y,z) -> z", "q"),
+    ("p_chain3", "R(x,y) S(y,z) T(z,w) -> x,w", "q"),
+    ("p_tri", "R(x,y) S(y,z) T(z,x) -> x", "q"),
+    ("p_rep_guard_tri", "R(a,a) S(x,y) T(y,z) U(z,x) -> x,y", "q"),
+    ("p_rep_link", "R(x,x) S(x,y) T(y,y) -> y", ""),
+    ("p_one", "R(x,y) -> x", "q"),
+    ("p_one_rep", "R(x,x,y) -> y", "q"),
+    ("p_star", "R(x,a) S(x,b) T(x,c) -> x", ""),
+    ("p_chain4", "R(x,y) S(y,z) T(z,w) U(w,v) -> x,v", ""),
+    ("p_two_guards", "R(a,a) S(b,b) T(y) -> y", ""),
+    ("p_none", "R(a,b) S(b,c) -> ", "q"),
 ]
 
 # profile = rows seeded per table before planning: (default size, {name: size} overrides)
@@ -158,7 +189,7 @@ def fact_text(name, key, val, is_func):
     return "(%s %s)" % (name, ks)
 
 
-def render_program(atoms, no_decomp, profile, steps, seed=0, rules=None):
+def render_program(atoms, no_decomp, profile, steps, seed=0, rules=None, head=None, tail=None):
     """steps: one entry per `(run <ruleset> 1)`:
          {"ruleset": name, "pre": [commands issued at top level before the run],
           "aux": [actions performed BY A RULE of that ruleset during this run]}
@@ -167,7 +198,7 @@ def render_program(atoms, no_decomp, profile, steps, seed=0, rules=None):
     rules: {ruleset: (out relation, rule options)}; default {"main": ("Out", "")}.  -> program text"""
     rules = rules or {"main": ("Out", "")}
     sig = signature(atoms)
-    vs = body_vars(atoms)
+    vs = head if head is not None else body_vars(atoms)
     lines = []
     for name, ar in sorted(sig.items()):
         if name[0].islower():
@@ -202,6 +233,8 @@ def render_program(atoms, no_decomp, profile, steps, seed=0, rules=None):
         if st.get("aux"):
             lines.append("(Trig %d)" % k)
         lines.append("(run %s 1)" % st["ruleset"])
+    for cmd in tail or []:
+        lines.append(cmd)
     for rs, (outrel, _) in sorted(rules.items()):
         lines.append("(print-function %s 1000000)" % outrel)
     return "\n".join(lines) + "\n"
